@@ -30,7 +30,7 @@ theorem Automaton.gotoOf_mem {A : Automaton} {s x s' : Nat} (h : A.gotoOf s x = 
   refine ⟨?_, lookup_mem h⟩
   by_cases hs : s < A.goto.size
   · exact hs
-  · simp [Array.getElem?_eq_none (Nat.le_of_not_lt hs), List.lookup] at h
+  · simp [Array.getElem?_eq_none (Nat.le_of_not_lt hs)] at h
 
 /-- `actionOf` is the table entry when it is not an error -/
 theorem Automaton.actionOf_nonerror {A : Automaton} {s a : Nat} {x : Action}
